@@ -22,6 +22,8 @@ func init() {
 			ruleRecoverOptionFlow(c, "R3")
 			ruleRecoverRelease(c, "R4")
 			ruleLocksSurviveRecovery(c, "R5")
+			ruleRecoveryWriterIsCurrent(c, "R6")
+			ruleAppendDoesNotAlias(c, "R7", "mux.(*Group).New", "mux.NewGroup", "mux.NewRouter")
 		},
 	})
 	register(&Spec{
@@ -35,6 +37,8 @@ func init() {
 			ruleValidationDominatesInstall(c, "R3", false)
 			ruleHeaderBeforeStatus(c, "R4")
 			ruleTraceHelper(c, "R5")
+			ruleTraceHeaderOwned(c, "R6")
+			ruleRecountFilter(c, "R7")
 		},
 	})
 }
